@@ -51,15 +51,17 @@ def prove_mat(ctx, name, hyp, mg, **kw):
 
 
 # ------------------------------------------------------------------ replay on the real code
-def replay_screen(kind, nx, param, vals, history_r0=None):
+def replay_screen(kind, nx, param, vals, history_kind=None):
     import copy
     ips = _ips()
     import aotools.turbulence.turb as turb
     cls = ips.PhaseScreenVonKarman if kind == "vk" else ips.PhaseScreenKolmogorov
     kw = dict(n_columns=param) if kind == "vk" else dict(stencil_length_factor=param)
     ps, r0, L0 = vals["ps"], vals["r0"], vals["L0"]
-    if history_r0 is not None:
-        cls(nx, ps, history_r0, L0, random_seed=3, **kw)
+    if history_kind is not None:
+        hp = dict(ps=ps, r0=r0, L0=L0)
+        hp[history_kind] = hp[history_kind] * 2.0
+        cls(nx, hp["ps"], hp["r0"], hp["L0"], random_seed=3, **kw)
     try:
         scr = cls(nx, ps, r0, L0, random_seed=11, **kw)
     except Exception as e:
@@ -90,7 +92,7 @@ def replay_screen(kind, nx, param, vals, history_r0=None):
     shift = float(numpy.max(numpy.abs(numpy.array(scr._scrn, dtype=float)[1:] - before[:scr.stencil_length - 1])))
     bad = (not numpy.isfinite(eA + eB + eR)) or eA > 2e-3 or eB > 2e-3 or eR > 1e-6 or shift > 0
     return bad, dict(what="A Czz = Cxz rel.err %.2e; A Czz A^T + B B^T = Cxx rel.err %.2e; row = A Z + B b rel.err %.2e" % (eA, eB, eR),
-                     kind=kind, nx=nx, param=param, params=vals, history_r0=history_r0)
+                     kind=kind, nx=nx, param=param, params=vals, history=history_kind)
 
 
 def generic_params(k=0):
@@ -118,11 +120,18 @@ def case_screen(ctx, kind, nx, param, history, geometry_only=False):
     turb = TurbCut()
     hist_r0 = None
     if history:
-        hist_r0 = var("r0h")
-        pre.append(z(hist_r0.re) > 0)
-        pre.append(z(hist_r0.re) != z(r0.re))
-        names["r0h"] = hist_r0
-        make_screen(kind, nx, param, ps, hist_r0, L0, seed=None, turb=turb)
+        # an earlier instance with the same layout and one parameter different (history = True/"r0", "ps", "L0")
+        hk = "r0" if history is True else history
+        hv = var(hk + "h")
+        base = dict(r0=r0, ps=ps, L0=L0)
+        pre.append(z(hv.re) > 0)
+        pre.append(z(hv.re) != z(base[hk].re))
+        names[hk + "h"] = hv
+        if hk == "r0":
+            hist_r0 = hv
+        hp = dict(base)
+        hp[hk] = hv
+        make_screen(kind, nx, param, hp["ps"], hp["r0"], hp["L0"], seed=None, turb=turb)
         n_inv0, n_svd0 = len(npx.INV_LOG), len(npx.SVD_LOG)
     else:
         n_inv0 = n_svd0 = 0
@@ -130,7 +139,7 @@ def case_screen(ctx, kind, nx, param, history, geometry_only=False):
     scr, turb, stub = make_screen(kind, nx, param, ps, r0, L0, seed=stream, turb=turb)
     ctx.paths += 1
     ctx.bounds.update(internal_nx=int(scr.nx_size), stencil_points=int(scr.n_stencils), structure_function_applications=len(turb.cut.apps))
-    uni = Unifier(ctx, turb.cut, pre, [ps, r0, L0] + ([hist_r0] if history else []))
+    uni = Unifier(ctx, turb.cut, pre, [ps, r0, L0] + ([names[k] for k in names if k.endswith("h")]))
     inv_ax = [z(d.re) != 0 for (_, d, _, _) in npx.INV_LOG if not d.isconc()]
     hyp = pre + inv_ax
 
@@ -138,7 +147,7 @@ def case_screen(ctx, kind, nx, param, history, geometry_only=False):
         vals = dict(ps=m(ps), r0=m(r0), L0=m(L0))
         outs = None
         for v in [vals, generic_params(0), generic_params(1)]:
-            bad, detail = harness.pristine_call(replay_screen, kind, nx, param, v, (v["r0"] * 2.0 if history else None))
+            bad, detail = harness.pristine_call(replay_screen, kind, nx, param, v, (("r0" if history is True else history) if history else None))
             outs = detail
             if bad:
                 return True, detail
@@ -220,11 +229,59 @@ def case_screen(ctx, kind, nx, param, history, geometry_only=False):
     ctx.bounds["solver_proved_argument_merges"] = uni.merges
 
 
+def case_own_generator(ctx, kind):
+    """with an integer seed the initial screen must be drawn from the instance's own generator (the one the row
+    innovations come from): otherwise the innovation b repeats draws that produced the stencil values Z"""
+    ips = _ips()
+    ps, r0, L0, seed = var("ps"), var("r0"), var("L0"), var("seed")
+    pre = [z(ps.re) > 0, z(r0.re) > 0, z(L0.re) > 0, z(seed.re) >= 0]
+    ctx.encoded(ips.PhaseScreen.make_initial_screen, ips.PhaseScreen.get_new_row)
+    ctx.bounds.update(variant=kind, seed="symbolic integer", nx=2)
+    npx.LAZY_INV[0] = True
+
+    def go():
+        scr, turb, stub = make_screen(kind, 2, 1 if kind != "vk" else 2, ps, r0, L0, seed=seed)
+        return scr, stub
+    paths, ex = core.run_paths(go, pre)
+    ctx.explored(ex, len(paths))
+    for pi, p in enumerate(paths):
+        if p.exc is not None:
+            continue
+        scr, stub = p.out
+        ok = len(stub.calls) == 1 and (stub.calls[0]["seed"] is scr._R)
+        ctx.prove("path%d: the initial screen is drawn from the generator that also supplies the row innovations" % pi, pre + p.pc, z3.BoolVal(bool(ok)),
+                  replay=lambda m: harness.pristine_call(_replay_own_generator, kind, 5), axioms=False)
+
+
+def _replay_own_generator(kind, seed):
+    ips = _ips()
+    import aotools.turbulence.phasescreen as psm
+    seen = []
+    real = psm.ft_phase_screen
+
+    class Rec:
+        def __getattr__(self, k):
+            return getattr(psm, k)
+
+        @staticmethod
+        def ft_phase_screen(*a, **k):
+            seen.append(k.get("seed"))
+            return real(*a, **k)
+    old = ips.phasescreen
+    ips.phasescreen = Rec()
+    try:
+        scr = ips.PhaseScreenVonKarman(8, 0.1, 0.2, 20.0, random_seed=seed, n_columns=2) if kind == "vk" else ips.PhaseScreenKolmogorov(8, 0.1, 0.2, 20.0, random_seed=seed, stencil_length_factor=1)
+    finally:
+        ips.phasescreen = old
+    bad = not (len(seen) == 1 and seen[0] is scr._R)
+    return bad, dict(what="initial screen is not drawn from the instance's generator (seed argument passed on: %r)" % (seen,))
+
+
 def build_cases(tier):
     cases = []
     L = [("vk", 2, 1), ("vk", 2, 2), ("vk", 3, 1), ("vk", 3, 2), ("fried", 2, 1), ("fried", 3, 1), ("fried", 3, 2), ("fried", 2, 2)]
     if tier == "thorough":
-        L += [("vk", 4, 1), ("vk", 4, 2), ("fried", 4, 1), ("fried", 5, 1), ("vk", 3, 3)]
+        L += [("vk", 4, 1), ("vk", 4, 2), ("vk", 5, 1)]      # up to 8 stencil points (adjugate 8x8); Fried internal 5 has 11 points: geometry-only below
     for kind, nx, param in L:
         cases.append(("%s/nx=%d/%s=%d" % (kind, nx, "cols" if kind == "vk" else "factor", param), case_screen, dict(kind=kind, nx=nx, param=param, history=False)))
     G = [("fried", 4, 1), ("vk", 4, 2), ("fried", 6, 1)] if tier == "quick" else [("fried", 4, 1), ("fried", 4, 2), ("vk", 4, 2), ("vk", 5, 3), ("fried", 6, 1), ("fried", 7, 1), ("fried", 10, 1)]
@@ -232,8 +289,11 @@ def build_cases(tier):
         cases.append(("%s/nx=%d/%s=%d/geometry-and-row" % (kind, nx, "cols" if kind == "vk" else "factor", param), case_screen,
                       dict(kind=kind, nx=nx, param=param, history=False, geometry_only=True)))
     for kind, nx, param in ([("vk", 2, 2), ("fried", 3, 1)] if tier == "quick" else [("vk", 2, 2), ("fried", 3, 1), ("vk", 3, 2), ("fried", 2, 1)]):
-        cases.append(("%s/nx=%d/%s=%d/after-another-r0" % (kind, nx, "cols" if kind == "vk" else "factor", param), case_screen,
-                      dict(kind=kind, nx=nx, param=param, history=True)))
+        for hk in ("r0", "ps", "L0"):
+            cases.append(("%s/nx=%d/%s=%d/after-another-%s" % (kind, nx, "cols" if kind == "vk" else "factor", param, hk), case_screen,
+                          dict(kind=kind, nx=nx, param=param, history=hk)))
+    cases.append(("own-generator/vk", case_own_generator, dict(kind="vk")))
+    cases.append(("own-generator/fried", case_own_generator, dict(kind="fried")))
     return cases
 
 
